@@ -119,6 +119,7 @@ def recvHeaders (s : Streams) (h : HeadersIn) : Streams × Except PErr Unit :=
                 (s.enqueueResetExpiration k, .ok ())
               | (s, .oversize false) => (s, .error (PErr.libraryReset id PROTOCOL_ERROR))
               | (s, .state e) => (s, .error e)
+              | (s, .unsupported) => (s.unsup "request URI outside the modelled subset", .ok ())
             else s.recvRecvTrailers k h
           s.resetOnRecvStreamErr k res
 
@@ -353,6 +354,48 @@ def pollPendingOpen (s : Streams) (pending : Option Nat) (tag : String) : Stream
       | some p =>
         if (s.stream p).isPendingOpen then (s.modStream p fun st => st.waitOpen tag, .ok false) else (s, .ok true)
       | none => (s, .ok true)
+
+/-- `Streams::next_incoming`: the key of the accepted stream (one `StreamRef` on it) -/
+def nextIncoming (s : Streams) : Streams × Option Nat :=
+  match s.recvNextIncoming with
+  | (s, some k) =>
+    let s := { s with refs := s.refs + 1 }
+    let s := if (s.stream k).state.isRemoteReset then
+        s.modCountsA "self.num_remote_reset_streams > 0" Counts.decNumRemoteResetStreams else s
+    (s.refInc k, some k)
+  | (s, none) => (s, none)
+
+/-- `StreamRef::send_response(response, end_of_stream)` -/
+def refSendResponse (s : Streams) (k : Nat) (fields : List Hpack.Field) (eos : Bool) : Streams × Except UserError Unit :=
+  s.transition k fun s => s.sendHeaders k eos fields
+
+/-- `StreamRef::send_informational_headers(frame)` (the frame never carries END_STREAM) -/
+def refSendInformationalHeaders (s : Streams) (k : Nat) (fields : List Hpack.Field) : Streams × Except UserError Unit :=
+  s.transition k fun s => s.sendInterimInformationalHeaders k fields
+
+/-- `StreamRef::send_push_promise(request)`: `Ok(key of the promised stream)`.  `requestValid` is
+    `PushPromise::validate_request(&request).is_ok()`.
+    NOTE `convert_push_message(..)?` leaves the function before the clean-up: the reserved child
+    stream stays in the store when the request is refused. -/
+def refSendPushPromise (s : Streams) (parent : Nat) (requestValid : Bool) (fields : List Hpack.Field) :
+    Streams × Except UserError Nat :=
+  match s.sendReserveLocal with
+  | (s, .error e) => (s, .error e)
+  | (s, .ok promisedId) =>
+    let s := if s.store.contains promisedId then s.panic "assertion failed: self.ids.insert(id, index).is_none()" else s
+    let (store, child) := s.store.insert (Stream.new promisedId s.actions.send.initWindowSz s.recv.initWindowSz)
+    let s := { s with store := store }
+    match (s.stream child).state.reserveLocal with
+    | (_, .error e) => (s, .error e)
+    | (st', .ok _) =>
+      let s := s.modStream child fun st => { st with state := st', isPendingPush := true }
+      if !requestValid then (s, .error .malformedHeaders)
+      else
+        match s.sendPushPromise parent child promisedId fields with
+        | (s, .error e) => ({ s with store := (s.store.unlink promisedId).remove child }, .error e)
+        | (s, .ok _) =>
+          let s := { s with refs := s.refs + 1 }
+          (s.refInc child, .ok child)
 
 /-- `Clone for Streams` -/
 def cloneHandle (s : Streams) : Streams := { s with refs := s.refs + 1 }
